@@ -1,6 +1,6 @@
 \* C05 thorough: every sequence (any length) of the 11 guard operations over 2 alternative
 \* modules / names / property values; default completions with level / panic level each absent
-\* or present: new{rec1,dflt,dfltl,dfltp,dfltL} with{rec2,dflt,dfltl,dfltL}
+\* or present: new{rec1,dflt,dfltl,dfltp,dfltL} with{rec2,dfltl,dfltL,recRef,fromE,empty}
 \* complete_with{rec3,dflt,dfltp,dfltL,ok,err}; macro result completions with ok_lvl / err_lvl /
 \* err-mapper each absent or present {ok,okD,err,errD,errM,errMD}; 6 clock scripts (forwards,
 \* backwards, standing still, no reading at start / at completion / at all), both filter verdicts,
@@ -12,8 +12,8 @@ CONSTANTS
     Names = {"n1", "n2"}
     PropVals = {1, 2}
     NewComps = {"rec1", "dflt", "dfltl", "dfltp", "dfltL"}
-    WithComps = {"rec2", "dflt", "dfltl", "dfltL"}
-    CwComps = {"rec3", "dflt", "dfltp", "dfltL", "ok", "okD", "err", "errD", "errM", "errMD"}
+    WithComps = {"rec2", "dfltl", "dfltL", "recRef", "fromE", "empty"}
+    CwComps = {"rec3", "dflt", "dfltp", "dfltL", "ok", "okD", "err", "errD", "errM", "errMD", "recRef", "recSS", "fromE", "empty"}
     Scripts <- MC_ScriptsThorough
     Forms = {"none", "plain", "setup", "result", "result_o", "result_e", "resultM", "resultM_m", "guard", "newspan"}
     Frames = {"in", "out"}
